@@ -70,6 +70,10 @@ Schema(s) ==
          << DSec("t", {"MULTI","TITLE"}, << DInt("x", "5"), DPtr("p") >>) >>
     [] s = 8 -> (* two lists with defaults: interplay of consecutive list assignments *)
          << DIntList("la", <<"1","2">>), DStrList("lb", <<"x">>) >>
+    [] s = 14 -> (* options whose value lives in the caller's variables (the CFG_SIMPLE macros) *)
+         << DSimple("n", "int", "0"), DSimple("w", "str", Null), DSimple("v", "bool", "false"),
+            DSimple("d", "float", "0"), DInt("i", "7"),
+            DSec("sec", {}, << DSimple("k", "int", "0") >>) >>
 
 NoCase(s) == s \in {6, 7}
 
@@ -87,6 +91,7 @@ ValuePool(s) ==
     [] s = 13 -> {"1"}
     [] s = 11 -> {"1"}
     [] s = 12 -> {"1"}
+    [] s = 14 -> {"1", "x", "true"}
 TitlePool(s) == IF s \in {2, 3, 4} THEN (IF Mode \in {"ignore", "ignorecmt"} THEN {"a"} ELSE {"a", "b"})
                 ELSE IF s = 7 THEN {"a", "A"} ELSE IF s = 9 THEN {"a"} ELSE {}
 
